@@ -68,6 +68,10 @@ def parse_guarded(ctx, d, r, data, kw, case, via):
     except C.ConstructError:
         return "rejected"
     except BudgetExceeded as e:
+        if "GreedyRange" in kinds_in(r) and kinds_in(r) & {"LazyStruct", "LazyArray", "Lazy"} and runs_past_end(d, data, kw):
+            ctx.violation("greedy-repeater-over-lazy-element-never-ends", "parse did not finish within %d call steps on %d input bytes: the repeater's element is skipped by its size instead of being read, "
+                          "so it never fails (400,000 further call steps did not end it either)" % (budget, len(data)), dict(case, via=via))
+            return None
         verdict = second_look(d, data, kw)
         if verdict == "finished":
             # e.g. a count field of a few hundred zero-width elements: slow relative to the input length, but it ends
@@ -83,6 +87,21 @@ def parse_guarded(ctx, d, r, data, kw, case, via):
     except Exception as e:
         ctx.violation("foreign-exception:" + site_key(e), "parse(%s) raised %s: %s" % (data[:40].hex(), type(e).__name__, str(e)[:200]), dict(case, via=via))
         return None
+
+
+def runs_past_end(d, data, kw):
+    """a cheap classifier for repeaters over lazily skipped elements (the caller has checked the recipe's structure): a second run
+    with 400,000 call steps / 200,000 stream operations does not end either"""
+    s = TracedStream(data, budget=200000, keeplog=False)
+    try:
+        with monitors.STEPS(400000):
+            d.parse_stream(s, **kw)
+        return False
+    except BudgetExceeded:
+        # (inside a length-limited region the element skips about in the region's own buffer: the outer position does not move)
+        return True
+    except Exception:
+        return False
 
 
 def second_look(d, data, kw):
@@ -147,6 +166,10 @@ EXPLICIT = [
     (["Struct", [["n", B], ["xs", ["GreedyRange", ["Bytes", ["this", "n"]]]]]], {}),
     (["Struct", [["n", B], ["xs", ["RepeatUntil", ["bin", "==", ["fn", "len", ["obj"]], 0], ["Array", ["this", "n"], B]]]]], {}),
     (["GreedyRange", ["Optional", ["Const", 7, B]]], {}),
+    # repeaters over elements that are skipped by their size instead of being read
+    (["GreedyRange", ["LazyStruct", [["a", B], ["b", ["name", "Int16ub"]]]]], {}),
+    (["Struct", [["h", B], ["xs", ["Prefixed", B, ["GreedyRange", ["Lazy", ["name", "Int16ub"]]], False]]]], {}),
+    (["GreedyRange", ["LazyArray", 2, B]], {}),
     (["GreedyRange", ["Select", [["Const", tag(b"AB"), None], ["name", "Int16ub"]]]], {}),
     (["PrefixedArray", ["name", "VarInt"], ["Struct", [["a", ["Padding", 0]]]]], {}),
     (["Struct", [["n", ["name", "VarInt"]], ["xs", ["Array", ["this", "n"], ["Bytes", 0]]]]], {}),
@@ -399,7 +422,7 @@ def outcome_stream(f):
 
 def monitor_c(ctx, rng):
     n = ctx.pick(600, 8000) // ctx.nworkers
-    extra = [(r, kw) for r, kw in EXPLICIT]
+    extra = [(r, kw) for r, kw in EXPLICIT if not ("GreedyRange" in kinds_in(r) and kinds_in(r) & {"LazyStruct", "LazyArray", "Lazy"})]
     for i in range(n + len(extra)):
         if i < len(extra):
             if not ctx.mine(i):
